@@ -281,6 +281,9 @@ Proof. intros a b c. apply le_of_trans. exact W. Qed.
 Lemma sorted_strongly l : Sorted (le_of less) l -> StronglySorted (le_of less) l.
 Proof. apply Sorted_StronglySorted. exact le_of_transitive. Qed.
 
+Lemma sorted_iff_strongly l : Sorted (le_of less) l <-> StronglySorted (le_of less) l.
+Proof. split; [apply sorted_strongly|apply StronglySorted_Sorted]. Qed.
+
 (* a sorted permutation that keeps every class of equivalent elements in its
    original order is unique *)
 Lemma stable_sort_unique : forall l1 l2,
